@@ -6,7 +6,7 @@ import PyCraft.Props.C03
 table walk `for max_value, size in TABLE.items(): if value < max_value: return size` also answers
 for NEGATIVE integers (the first comparison already succeeds), where `VarInt.send` raises
 `ValueError` (fix D3).  This file states the complete behaviour of `size` over `Int`, the exact set
-on which `size` and `send` agree, and monotonicity — so that a rewrite of the walk (another order of
+on which `size` and `send` agree, and monotonicity (`size_mono`) — so that a rewrite of the walk (another order of
 the table, `<=` for `<`, a guard for negatives) changes a theorem here.  Only property theorems and
 examples; the correspondence (`corr/c03.py`) compares `varint.size` with the live `VarInt.size` and
 `VarLong.size` as a hard tie for `n ≥ 0` and as a recorded (not judged) comparison on negative
@@ -84,6 +84,30 @@ theorem size_range (v : Int) (k : Nat) (h : varintSize v = .ok k) : 1 ≤ k ∧ 
   simp only [varintSizeTable, List.mem_cons, Prod.mk.injEq, List.not_mem_nil, or_false] at hm
   omega
 
+/-- Walk over a table whose bounds ascend with its sizes: a larger value never gets a smaller size. -/
+theorem lookup_mono (v w : Int) (hvw : v ≤ w) :
+    ∀ (tbl : List (Nat × Nat)), tbl.Pairwise (fun p q => p.2 ≤ q.2) →
+      ∀ k l, sizeLookup v tbl = .ok k → sizeLookup w tbl = .ok l → k ≤ l
+  | [], _, k, l, h, _ => by cases h
+  | (b, s) :: rest, hp, k, l, hk, hl => by
+    simp only [sizeLookup] at hk hl
+    rw [List.pairwise_cons] at hp
+    by_cases hv : v < (b : Int)
+    · rw [if_pos hv] at hk; cases hk
+      by_cases hw : w < (b : Int)
+      · rw [if_pos hw] at hl; cases hl; exact Nat.le_refl _
+      · rw [if_neg hw] at hl
+        obtain ⟨b', hm, _⟩ := lookup_answers_table_entry w l rest hl
+        exact hp.1 _ hm
+    · have hw : ¬ w < (b : Int) := by omega
+      rw [if_neg hv] at hk; rw [if_neg hw] at hl
+      exact lookup_mono v w hvw rest hp.2 k l hk hl
+
+/-- `VarInt.size` is monotone wherever it answers. -/
+theorem size_mono (v w : Int) (hvw : v ≤ w) (k l : Nat)
+    (hk : varintSize v = .ok k) (hl : varintSize w = .ok l) : k ≤ l :=
+  lookup_mono v w hvw varintSizeTable (by decide) k l hk hl
+
 /-- The disagreement with `send` on negatives, as a concrete pair. -/
 theorem negative_size_but_no_encoding :
     varintSize (-1) = .ok 1 ∧ encVarIntZ (-1) = .error .value := by decide
@@ -94,6 +118,6 @@ example : varintSize (2 ^ 84 - 1) = .ok 12 := by decide +kernel
 example : varintSize (2 ^ 84) = .error .value := by decide +kernel
 example : ∃ bs, encVarIntZ 300 = .ok bs ∧ varintSize 300 = .ok bs.length :=
   (size_agrees_with_send_iff 300).2 (by decide)
-example : varintSize 127 = .ok 1 ∧ varintSize 128 = .ok 2 := by decide +kernel
+example : varintSize 127 = .ok 1 ∧ varintSize 128 = .ok 2 ∧ (127 : Int) ≤ 128 := by decide +kernel
 
 end PyCraft.C03Size
